@@ -19,7 +19,8 @@
    10^40).  C14_history lifts it to every build of every history of rebuilds
    on one Requester. *)
 From Hio Require Import Base.Prelude Model.HttpReqUrl Model.HttpTotal Model.HttpReq Proofs.HttpReqProofs
-     Proofs.HttpReqCodec Proofs.HttpReqQuery Proofs.HttpReqHeaders Proofs.HttpReqTarget Proofs.HttpReqRoundtrip.
+     Proofs.HttpReqCodec Proofs.HttpReqQuery Proofs.HttpReqHeaders Proofs.HttpReqTarget Proofs.HttpReqRoundtrip
+     Proofs.HttpTotalFrag.
 From Coq Require Import String.
 Local Open Scope N_scope.
 
@@ -74,6 +75,20 @@ Theorem C14_environ_independent : forall o host port rs x, wf_endpoint host port
   = map (fun r => Ok (build_environ (parsed_of host port r))) rs.
 Proof. exact serve_many_builds. Qed.
 Print Assumptions C14_environ_independent.
+
+(* fragmentation independence of the incremental request parser (Model/HttpTotal.v: one
+   Requestant.parse() per receive, explicit generator state between receives): feeding the
+   receives one by one gives the outcome of one parse of their concatenation, wherever the
+   bytes are cut - in the request line, after a header line, between CR and LF, in the body *)
+Theorem C14_fragmentation : forall o chunks s buf,
+  match feed o s buf chunks with
+  | PNeed s' b' => req_parse o s (buf ++ List.concat chunks) = PNeed s' b'
+  | PDone ri body rest => exists rest', req_parse o s (buf ++ List.concat chunks) = PDone ri body rest'
+  | PFail k => req_parse o s (buf ++ List.concat chunks) = PFail k
+  | POut => False
+  end.
+Proof. exact feed_concat. Qed.
+Print Assumptions C14_fragmentation.
 
 (* the layers of the proof that are of independent interest *)
 Theorem C14_utf8_roundtrip : forall s, text_ok s = true -> utf8_dec (utf8_enc s) = s.
